@@ -102,7 +102,15 @@ def run_rule(case, ctx) -> None:
             ctx.count("evaluations")
             mult, ratio = Fraction(mn, md), Fraction(rn, rd)
             try:
-                fn = transformer_residual_scaling_rule(residual_mult=float(mult), residual_attn_ratio=float(ratio))
+                # call form of the public factory: keywords, positional (documented order: multiplier, then ratio), mixed
+                form = (mn * 7 + rn * 3 + md + rd + L) % 3
+                if form == 0:
+                    fn = transformer_residual_scaling_rule(residual_mult=float(mult), residual_attn_ratio=float(ratio))
+                elif form == 1:
+                    fn = transformer_residual_scaling_rule(float(mult), float(ratio))
+                else:
+                    fn = transformer_residual_scaling_rule(float(mult), residual_attn_ratio=float(ratio))
+                ctx.count(["form:keywords", "form:positional", "form:mixed"][form])
                 taus = [fn(i, 2 * L) for i in range(2 * L)]
             except Exception as e:
                 ctx.violation("C07:rule:raises:" + exc_key(e), repr(e), L=L, mult=str(mult), ratio=str(ratio))
